@@ -313,6 +313,17 @@ class MRGPath:
             self.rows_expr = kw[0] if kw else None
         self.rows = term_of(fn, self.rows_expr, inline=False) if self.rows_expr is not None else None
 
+    def assumed_empty(self, term) -> bool:
+        """the path assumes that `term` (a list) is empty"""
+        ln = ('call', ('name', 'len'), (term,), ())
+        for test, truth in self.res.assumed:
+            t = term_of(self.model.fn, test, inline=False)
+            empty_if_true = [('cmp', '==', ('num', 0), ln), ('cmp', '==', ln, ('num', 0)), ('cmp', '<', ln, ('num', 1)), ('cmp', '<=', ln, ('num', 0)), ('not', term)]
+            empty_if_false = [('cmp', '!=', ('num', 0), ln), ('cmp', '!=', ln, ('num', 0)), ('cmp', '<', ('num', 0), ln), ('cmp', '<=', ('num', 1), ln), term, ln]
+            if (truth and t in empty_if_true) or (not truth and t in empty_if_false):
+                return True
+        return False
+
     def describe(self):
         return f"heuristic {self.heuristic!r}" + (', ' + ', '.join(f'{ast.unparse(t)[:40]} is {v}' for t, v in self.assume) if self.assume else '')
 
